@@ -39,7 +39,9 @@ m = {
         "add_only": True,
     },
     "engines": [{"name": "vcheck", "path": "/verif/harness", "serves_properties": [c["property_id"] for c in checks],
-                 "kind_free_text": "Rust binary: exhaustive enumerators + proptest strategies (fixed seed, shrinking) + independent oracles; worker processes; known-findings matcher; replay files"}],
+                 "kind_free_text": "Rust binary: exhaustive enumerators + proptest strategies (fixed seed, shrinking) + independent oracles; worker processes; known-findings matcher; replay files"},
+                {"name": "props (cargo-fuzz / libFuzzer)", "path": "/verif/harness/fuzz", "serves_properties": sorted(set(tab.get("fuzz_props", []))),
+                 "kind_free_text": "coverage-guided byte-level driver over the same evaluators (one input = one case of one sub-check); extra stage of the thorough tier, skipped with a NOTE if the nightly tool chain cannot build it"}],
     "checks": checks,
     "not_applicable": na,
     "notes": tab.get("notes", ""),
